@@ -83,6 +83,7 @@ func init() {
 		zones := []*time.Location{time.UTC, time.FixedZone("plus1", 3600), time.FixedZone("minus5", -5*3600), time.FixedZone("plus14", 14*3600), time.FixedZone("minus12", -12*3600)}
 		zi := 0
 		addValid := func(domain string, t time.Time, why string) bool {
+			tick()
 			// the same instant, expressed in rotating time zones: validity is a function of the instant
 			zi++
 			t = t.In(zones[zi%len(zones)])
@@ -168,6 +169,27 @@ func init() {
 			}
 			if !util.IsInTLDMap(strings.ToUpper(k)) || !util.IsInTLDMap(k) {
 				out.Violate("C18|not-in-map:"+k, "IsInTLDMap rejects a table key (case-insensitively)", k, true, false)
+			}
+		}
+		// case: a label is looked up lower-cased, whichever of its letters are capitals - every single-letter
+		// capitalisation of every key answers like the key itself
+		for i, k := range keys {
+			if i%4 != 0 && tier() != "thorough" && !strings.ContainsAny(k, "zqxjy") {
+				continue
+			}
+			t := time.Date(2024, 6, 1, 0, 0, 0, 0, time.UTC)
+			ref := util.HasValidTLD("example."+k, t)
+			for p := 0; p < len(k); p++ {
+				if k[p] < 'a' || k[p] > 'z' {
+					continue
+				}
+				v := k[:p] + strings.ToUpper(k[p:p+1]) + k[p+1:]
+				if got := util.HasValidTLD("example."+v, t); got != ref {
+					out.Violate("C18|case-sensitive:"+v, fmt.Sprintf("HasValidTLD(example.%s) = %v but HasValidTLD(example.%s) = %v", k, ref, v, got), map[string]interface{}{"tld": k, "spelling": v}, ref, got)
+				}
+			}
+			if len(k) > 0 && k[len(k)-1] >= 'a' && k[len(k)-1] <= 'z' && i%16 == 0 {
+				addValid("www.Example."+k[:len(k)-1]+strings.ToUpper(k[len(k)-1:]), t, "last-letter-capital")
 			}
 		}
 		// unknown labels, odd shapes, non-ASCII
